@@ -811,6 +811,28 @@ def _():
     return sites, apply
 
 
+@_op("V43b_body_on_else_line", "EXP_NEWLINE", "`else y = 1;`", kinds=("c",))
+def _():
+    def sites(p):
+        at = _stmt_at(p)
+        lines = _lines(p)
+        out = []
+        for s in _stmts(p, ("else",)):
+            nxt = at.get(s["line"] + 1)
+            if nxt and nxt["kind"] in SIMPLE and nxt["depth"] == s["depth"] + 1:
+                joined = lines[s["line"] - 1] + " " + lines[s["line"]].lstrip("\t")
+                if width(joined) <= MAX_COLS:
+                    out.append((s["line"], s["kind"]))
+        return out
+
+    def apply(p, site):
+        lines = _lines(p)
+        lines[site[0] - 1] += " " + lines[site[0]].lstrip("\t")
+        del lines[site[0]]
+        return _join(lines), site[0]
+    return sites, apply
+
+
 @_op("V44_two_instructions", "TOO_MANY_INSTR", "`a = 1; b++;`", kinds=("c",))
 def _():
     def sites(p):
